@@ -207,6 +207,31 @@ PROPS.update({
         "explanation": "oracles: no task or request panics; no query of a bucket holding acknowledged data fails; every returned row is attributable to exactly one issued write with all columns from that write; reads obey the register/multiset rules of C07",
         "budget": {"quick": 40, "thorough": 900},
     },
+    "C35": {
+        "level": "exploration", "engine": "SCHED",
+        "rule": ("1-3 writer and 0-1 reader tasks (2-7 operations each; think times 0 / 300 ms / 2 s / 4 min so that flushes, checkpoints and WAL truncation interleave) with the background WAL writer (75%) "
+                 "or without it (25%, one writer); the graceful Shutdown of cmd/start is requested after a seed-chosen number of writes has returned (any point relative to pending flushes and "
+                 "checkpoints: preemption 2-60% inside Shutdown, the WAL writer's exit path and the trigger dispatcher's drain); every bucket is read after Shutdown returned and again after a real restart on the same disk; "
+                 "distinct_nontrivial = distinct (mode, schedule hash, #preemptions, #operations)"),
+        "faults": ["seeded preemption at every yield point", "shutdown at a seeded moment", "virtual-time tickers (flush 500 ms, checkpoint 5 min)", "restart with startup recovery"],
+        "assumptions": ["tasks interleave at yield points only; requests still in flight when Shutdown returns are given 5 virtual seconds and then abandoned (the real process exits)"],
+        "explanation": "oracle: Shutdown returns (bounded virtual time, no panic); every bucket's all-time result is identical before and after the restart; every write acknowledged before Shutdown returned is present; no variable-length record is duplicated",
+        "budget": {"quick": 40, "thorough": 900},
+    },
+    "C05": {
+        "level": "exploration", "engine": "SCHED",
+        "rule": ("1-3 writer tasks (3-8 requests each; think times 0.4 s / 3 s / 3 min / 6 min; tail 1 s / 6 min / 16 min; WAL rotate interval 1-3; 30% of runs end with a graceful shutdown at a seeded moment) against "
+                 "the real server with the background WAL writer, under seeded preemption; the four event sources of the writer loop (500 ms flush ticker, 5 ms fill-level ticker, 5 min checkpoint ticker, "
+                 "requested flushes) interleave on the virtual clock and the select wrapper makes 'which ready case' a tape choice; then up to 40 (quick) / 400 (thorough) crash points at the boundaries of "
+                 "the decoded WAL events are recovered as kill, power-loss (nothing un-synced kept) and WAL-only images; "
+                 "distinct_nontrivial = distinct (schedule hash, #transaction groups, #checkpoints, #truncations, shutdown)"),
+        "faults": ["seeded preemption at every yield point", "virtual-time flush / checkpoint / truncation", "graceful shutdown at a seeded moment", "process kill and power loss at WAL event boundaries", "restart with replay"],
+        "assumptions": [A_KILL, A_POWER, "trace conformance decodes the bytes of the logged WAL writes (message id, TGID, destination, status) per docs/design/durable_writes_design.txt"],
+        "explanation": ("oracles: (a) the recorded event trace is accepted by a state machine of the documented protocol (TGDATA(n) follows PREPARING(n); COMMITCOMPLETE(n) and the WAL fsync precede every primary write of n; "
+                        "a checkpoint's COMMITCOMPLETE follows PREPARING and a global sync with no primary write in between; truncation only when nothing was logged since the last completed checkpoint); "
+                        "(b) after recovery at every sampled crash point each write acknowledged before it is visible and a later commit is never overwritten by an older one; nothing un-issued is visible"),
+        "budget": {"quick": 45, "thorough": 900},
+    },
     "C09": {
         "level": "exploration", "engine": "MODEL", "rule": MODEL_RULE,
         "faults": ["none (fault-free configuration)", "graceful restart", "compression on/off", "highly compressible payload bursts"],
